@@ -127,6 +127,41 @@ Example p2_nullable_repaired :
   requests_subset_b (ls_reqs (p2_run true no_faults)) (ls_reqs (p2_run true (fault_at 1 FtEmpty))) = true.
 Proof. vm_compute. split; reflexivity. Qed.
 
+(* ---- the selected data path holds an explicit null / a wrong kind (seeded regression C07-m8) ----
+   `{"data":{"_entities":null}}` for the entity fetch f1 resp. the batch fetch f2 of plan 1, status 200 and 500,
+   with and without an errors entry: an error each time, the fetch is recorded; and on plan 2 (nullable input)
+   the dependant f2 is not sent *)
+Example p1_null_entities_list :
+  List.map le_kind (ls_errors (p1_run (fault_at 1 (FtShape ShEntNull false false)))) = [LE_SHAPE] /\
+  List.map le_kind (ls_errors (p1_run (fault_at 1 (FtShape ShEntNull false true)))) = [LE_STATUS] /\
+  List.map le_kind (ls_errors (p1_run (fault_at 1 (FtShape ShEntNull true false)))) = [LE_FETCH] /\
+  List.map le_kind (ls_errors (p1_run (fault_at 2 (FtShape ShEntNull false false)))) = [LE_SHAPE] /\
+  List.map le_kind (ls_errors (p1_run (fault_at 2 (FtShape ShEntObj false true)))) = [LE_SHAPE] /\
+  ls_errored (p1_run (fault_at 2 (FtShape ShEntNull true true))) = [2] /\
+  List.map rq_fetch (ls_reqs (p2_run true (fault_at 1 (FtShape ShEntNull false false)))) = [0; 1].
+Proof. vm_compute. repeat split; reflexivity. Qed.
+
+(* `_entities` items of the wrong kind (a number where an object is expected): MergeValues fails with
+   ErrMergeDifferentTypes, mergeResult returns it, ResolveGraphQLResponse fails and writes nothing -- one bad
+   answer of one subgraph is not isolated.  Also for `data` of the wrong kind on a root fetch. *)
+Lemma wrong_kind_aborts_proof :
+  exists answer root_answer kind_of t root F,
+    forallb (fetch_wf kind_of) (fetches_of t) = true /\ root_wf root = true /\
+    (exists rq ik we s5, In rq (ls_reqs (run answer root_answer kind_of no_faults t)) /\ F (rq_fetch rq) = Some (FtItems ik we s5)) /\
+    o_failed (finish root (run answer root_answer kind_of F t)) = true.
+Proof.
+  exists p1_answer, p1_root_answer, p1_kind, p1_tree, p1_root, (fault_at 1 (FtItems IkNum false false)).
+  split; [vm_compute; reflexivity|]. split; [vm_compute; reflexivity|]. split.
+  - eexists; exists IkNum, false, false. split; [vm_compute; right; left; reflexivity|reflexivity].
+  - vm_compute. reflexivity.
+Qed.
+Example p1_wrong_kind_variants :
+  ls_hard (p1_run (fault_at 2 (FtItems IkStr true true))) = true /\
+  ls_hard (p1_run (fault_at 1 (FtItems IkList false false))) = true /\
+  ls_hard (p1_run (fault_at 0 (FtShape ShDataStr false false))) = true /\
+  ls_hard (p1_run (fault_at 0 (FtShape ShDataArr false false))) = true.
+Proof. vm_compute. repeat split; reflexivity. Qed.
+
 (* ---- plan 5 (a chain of nullable @requires inputs): f1 provides a.r, f2 needs r and provides a.g, f3 needs g
    and provides a.h.  f3 depends on f0 and f2 only: when f1 fails it is skipped only because the SKIPPED f2 was
    recorded as errored itself (shouldSkipErroredDependencyLocked) ---- *)
